@@ -103,22 +103,38 @@ HOPS = {  # name -> ("sphere", n, x) | (shape, n, xev, beta, gamma)
 }
 
 
+_OBJ = {}         # scatterer / theory objects live as long as the
+#                  interpreter: a history that repeats an operation REUSES
+#                  them (rotations are float64 arrays, centres arrays)
+
+
 def _hop(name):
     import holopy as hp
     from holopy.scattering import (Sphere, Tmatrix, calc_holo,
                                    calc_scat_matrix)
     spec = HOPS[name]
-    if spec[0] == "sphere":
-        s = Sphere(n=spec[1], r=spec[2] / H.K, center=CENTER)
-    else:
-        s = _shape(spec[0], spec[2], spec[3], spec[4], n=spec[1])
+    if name not in _OBJ:
+        if spec[0] == "sphere":
+            s = Sphere(n=spec[1], r=spec[2] / H.K, center=np.array(CENTER))
+        else:
+            s = _shape(spec[0], spec[2], spec[3], spec[4], n=spec[1])
+            s.rotation = np.array(s.rotation, dtype=float)
+            s = s.from_parameters(dict(s.parameters, rotation=np.array(
+                s.rotation, dtype=float)))
+        _OBJ[name] = (s, repr(s))
+    s, srepr = _OBJ[name]
+    if "tm" not in _OBJ:
+        _OBJ["tm"] = Tmatrix()
     det = H.det_points([[0.0, 0.0, 0.0], [0.9, 0.2, 0.0], [-0.5, 1.1, 0.0],
                         [2.0, -1.5, 0.0]])
-    h = calc_holo(det, s, H.NMED, H.WL, (1, 0), theory=Tmatrix()).values
+    h = calc_holo(det, s, H.NMED, H.WL, (1, 0), theory=_OBJ["tm"]).values
     detp = hp.detector_points(theta=np.array([0.0, 0.7, 2.0]),
                               phi=np.array([0.0, 1.0, 4.0]))
-    S = calc_scat_matrix(detp, s, H.NMED, H.WL, theory=Tmatrix()).values
-    return digest(np.ascontiguousarray(h), np.ascontiguousarray(S))
+    S = calc_scat_matrix(detp, s, H.NMED, H.WL, theory=_OBJ["tm"]).values
+    out = digest(np.ascontiguousarray(h), np.ascontiguousarray(S))
+    if repr(s) != srepr:
+        out += "|scatterer-object-changed"
+    return out
 
 
 def _run_history(case, ck):
